@@ -28,6 +28,10 @@ def run(ctx):
               A.Bitwise(A.Struct(A.Renamed("n", A.Alias("Octet")), A.Renamed("d", A.Bytewise(A.Bytes(A.T("n")))))), A.Bytewise(A.Bitwise(A.Array(K, A.Alias("Octet")))) if False else A.Bitwise(A.Array(K, A.Alias("Nibble")))):
         for kk in (0, 1, 2, 4):
             progs.insert(0, (p, {"k": kk}))
+    # transform wrappers of size zero: they consume nothing, whatever follows
+    for p in (A.Bitwise(A.Array(0, A.Alias("Bit"))), A.ByteSwapped(A.Bytes(0)), A.BitsSwapped(A.Array(0, A.Alias("Byte"))), A.BitStruct(A.Padding(0)),
+              A.Struct(A.Renamed("f", A.BitStruct(A.Renamed("v", A.Computed(A.C(3))))), A.Renamed("x", A.Alias("Byte")))):
+        progs.insert(0, (p, {}))
     fixed = {}
     for e in common.corpus(ctx):
         progs.insert(0, (e["prog"], e.get("kw", {})))
